@@ -207,6 +207,11 @@ where
                 .to_string_lossy()
                 .into();
             vm = vm.with_import_stack(vec![own]);
+            // "One output per file" is counted per evaluation of the file: an
+            // earlier build or import of it in this invocation does not count.
+            self.environment
+                .borrow_mut()
+                .reset_out_lock_for_path(&path);
             vm.set_path(path);
         }
         if self.validate_mode {
